@@ -17,6 +17,7 @@ import (
 	"hash/crc32"
 	"os"
 	"strconv"
+	"strings"
 	"time"
 	"unsafe"
 )
@@ -136,10 +137,19 @@ func vxAssert(c bool, label string) {
 	}
 }
 
-func vxReach(string)          {}
-func vxUnwind(int, bool)      {}
-func vxGuard(_, _, _ string)  {}
-func vxNote(string)           {}
+func vxThorough() bool { return os.Getenv("VX_TIER") == "thorough" }
+func vxKnownOpen(key string) bool {
+	for _, k := range strings.Split(os.Getenv("VX_KNOWN"), ",") {
+		if k == key {
+			return true
+		}
+	}
+	return false
+}
+func vxReach(string)             {}
+func vxUnwind(int, bool)         {}
+func vxGuard(_, _, _ string)     {}
+func vxNote(string)              {}
 func vxIsNilSlice(s []byte) bool { return s == nil }
 
 func vxExtent(s []byte) (lo, hi uintptr) {
